@@ -1432,6 +1432,30 @@ impl Ms {
                                 h.out.count("deposits_returned_on_execute");
                             }
                         }
+                        // proposal messages may close other proposals (the whole call succeeded, so
+                        // every nested Close succeeded too): their deposits follow the Close rule
+                        let mut nested_closed: Vec<u64> = vec![];
+                        for id in &newly {
+                            for pm in &w.props[*id as usize - 1].msgs {
+                                if let PMsg::SelfClose(q) = pm {
+                                    if (*q as usize) <= w.props.len() && !nested_closed.contains(q) {
+                                        nested_closed.push(*q);
+                                    }
+                                }
+                            }
+                        }
+                        for q in nested_closed {
+                            let m = &mut w.props[q as usize - 1];
+                            m.closed = true;
+                            h.out.count("closes_nested_in_proposal_messages");
+                            if dep.refund_failed && m.deposit_taken {
+                                m.deposit_returned += 1;
+                                let p = m.proposer.clone();
+                                add(&p, d as i128);
+                                add(&ms, -(d as i128));
+                                h.out.count("deposits_returned_on_close");
+                            }
+                        }
                     }
                     Op::Close { id } if ok => {
                         if dep.refund_failed {
